@@ -492,8 +492,17 @@ def compare_vmec(bad):
             err = float(np.max(np.abs(B - want))) / sc
             if not err <= 1e-7:
                 bad('vmec:' + name, 'to_vmec: %s of the nfp=1 twin differs from the re-indexed %s of the nfp=3 declaration by %.3g (relative)' % (name, name, err))
+        # the boundary returned for plotting: with mode ranges that cover the surface grid of each declaration exactly, both are the trigonometric interpolant of
+        # the same surface data at the same physical points, so they agree at EVERY output resolution (here 11 toroidal points: (11 - 1) % 3 != 0)
+        with np.errstate(all='ignore'):
+            Bk = qk.get_boundary(r=0.05, ntheta=6, nphi=11, ntheta_fourier=6, mpol=3, ntor=(qk.nphi - 1) // 2)
+            B1 = q1.get_boundary(r=0.05, ntheta=6, nphi=11, ntheta_fourier=6, mpol=3, ntor=(q1.nphi - 1) // 2)
+        n += 1
+        errb = max(float(np.max(np.abs(np.asarray(a_) - np.asarray(b_)))) for a_, b_ in zip(Bk, B1))
+        if not errb <= 1e-8:
+            bad('boundary', 'get_boundary of the nfp=3 declaration and of its nfp=1 twin differ by %.3g at 11 toroidal output points' % errb)
     except Exception as e:
-        bad('vmec:raise', 'to_vmec on the two declarations raised %s: %s' % (type(e).__name__, str(e)[:200])); n += 1
+        bad('vmec:raise', 'to_vmec / get_boundary on the two declarations raised %s: %s' % (type(e).__name__, str(e)[:200])); n += 1
     finally:
         shutil.rmtree(tmp, ignore_errors=True)
     return n
